@@ -181,6 +181,9 @@ def parse_manifest_text(text):
             return {'ok': False, 'signed': signed, 'entries': []}
         ck = {}
         for j in range(3, len(sl), 2):
+            if sl[j] in ck:
+                # a checksum name listed twice: a name -> value table cannot honour every listed value
+                return {'ok': False, 'signed': signed, 'entries': []}
             ck[sl[j]] = sl[j + 1]
         if tag == 'AUX':
             p = 'files/' + p
@@ -199,6 +202,11 @@ def format_entry(e):
     if tag == 'IGNORE':
         return 'IGNORE ' + escape(p)
     parts = [tag, escape(p), str(e['size'])]
+    if e.get('ckl'):
+        # explicit list of pairs (generators of malformed entries: a name listed twice)
+        for k, v in e['ckl']:
+            parts += [k, v]
+        return ' '.join(parts)
     for k in sorted(e['ck']):
         parts += [k, e['ck'][k]]
     return ' '.join(parts)
